@@ -66,6 +66,10 @@ CHECKS = {
    "full product of OpenSSL producer configurations (smime/cms x smimecap x detached x certs x cades x content x key x certificate) generated at check time plus all shipped third-party artefacts; parse + verify matrix + byte-exact attribute re-encoding oracle",
    "Every configuration's output is parsed and verified by the real library against the signer's, a foreign and a same-issuer+serial-other-key certificate, and the parsed attributes are re-encoded and compared byte for byte with the signed bytes cut out of the blob by an independent walker. Exhaustive over the configuration product.",
    "OpenSSL as installed is the only live producer (sbsign/sbvarsign only as shipped fixtures; osslsigncode/pesign not installed).", "DESIGN.md section 4 C16"),
+ "C15": ("fault_enumeration", "E-fault",
+   "deviation-bounded exhaustive fault enumeration: the dependency-call sequence of each operation is recorded, then every single call, every pair of calls (bound 2) and every persistent suffix is made to fail with every applicable fault kind at the caller-supplied seams (crypto.Signer, afero.Fs, io.ReaderAt/io.Reader)",
+   "For 13 operations every position of the recorded dependency-call sequence is failed in turn (all fault kinds), then all pairs and all persistent suffixes; each run's outcome class, returned value, object state and filesystem trace are compared with the fault-free run. Exhaustive for deviation bounds 1 and 2 over the sequences the operations issue.",
+   "Faults only at caller-supplied seams; transient reader faults may be survived with the correct value (debug/pe swallows some read errors), persistent ones may not; short reads are legal io.Reader behaviour and must not change the value.", "DESIGN.md section 4 C15"),
 }
 
 NOT_YET = "check not built yet in this round (planned, see DESIGN.md section 4); no claim is made"
